@@ -443,7 +443,9 @@ def in_format_domain(fmt, tree):
         if isinstance(v, (list,)):
             return all(rec(x) for x in v)
         if type(v) is tuple:
-            return fmt in ("pickle", "yaml") and all(rec(x) for x in v)      # both write and read tuples as tuples
+            # pickle reproduces tuples; YAML may (python tags) or may turn them into lists (safe dumper): for YAML only "what
+            # a successful save wrote loads again" is claimed (see has_tuple)
+            return fmt in ("pickle", "yaml") and all(rec(x) for x in v)
         if isinstance(v, dict):
             for k, x in v.items():
                 if not isinstance(k, str):
@@ -457,6 +459,16 @@ def in_format_domain(fmt, tree):
             return True
         return fmt == "pickle"
     return rec(tree, True)
+
+
+def has_tuple(tree):
+    if type(tree) is tuple:
+        return True
+    if isinstance(tree, dict):
+        return any(has_tuple(v) for v in tree.values())
+    if isinstance(tree, list):
+        return any(has_tuple(v) for v in tree)
+    return False
 
 
 __all__ = ["resolve", "split_last", "targets", "gen_tree", "poison_tree", "expect_loaded", "matches", "default_expect",
